@@ -875,6 +875,36 @@ func script(w *kit.Out, r *kit.Rand, id string, nops, maxDepth int, disciplined 
 	for i := 0; i < nops; i++ {
 		g.op(disciplined)
 	}
+	if !disciplined {
+		// targeted: read through a cache store, change a store underneath, read again
+		for i := g.top(); i >= 1; i-- {
+			if g.kinds[i] != "cache" {
+				continue
+			}
+			k := g.key(i)
+			j := r.Intn(i)
+			w.Op("get L%d %s", i, k)
+			switch r.Intn(3) {
+			case 0:
+				w.Op("set L%d %s %s", j, k, g.val())
+			case 1:
+				w.Op("del L%d %s", j, k)
+			default:
+				if g.kinds[j] == "cache" {
+					w.Op("cp L%d", j)
+					w.Op("set L%d %s %s", j, k, g.val())
+					w.Op("get L%d %s", i, k)
+					w.Op("wcp L%d", j)
+				} else {
+					w.Op("set L%d %s %s", j, k, g.val())
+				}
+			}
+			w.Op("get L%d %s", i, k)
+			w.Op("has L%d %s", i, k)
+			w.Op("it L%d asc - -", i)
+			break
+		}
+	}
 	for _, id := range g.open {
 		w.Op("itr %d", id)
 	}
